@@ -19,11 +19,12 @@ type aeCase struct {
 	CE, CT, CC     string
 	Content        string
 	AEs            []string // "-" = no Accept-Encoding header
-	Ranges         []string // per request: a Range header, or "" (only with an identity origin)
+	Ranges         []string // per request: a Range header, or "" (with an identity or a gzip origin)
+	Vary           bool     // every client sends the same Origin and the resource says Vary: Origin (the entries live under the Origin's key)
 }
 
 func (c aeCase) Sx() sx.V {
-	return sx.L(sx.S("aecache"), sx.B(c.Recomp), sx.S(c.CE), sx.S(c.CT), sx.S(c.CC), sx.S(c.Content), sx.Strs(c.AEs), sx.Strs(c.rangesOrNone()))
+	return sx.L(sx.S("aecache"), sx.B(c.Recomp), sx.S(c.CE), sx.S(c.CT), sx.S(c.CC), sx.S(c.Content), sx.Strs(c.AEs), sx.Strs(c.rangesOrNone()), sx.B(c.Vary))
 }
 
 func (c aeCase) rangesOrNone() []string {
@@ -34,7 +35,7 @@ func (c aeCase) rangesOrNone() []string {
 }
 
 func aeCaseFromSx(v sx.V) aeCase {
-	return aeCase{Recomp: v.N(1).Bool(), CE: v.N(2).Str(), CT: v.N(3).Str(), CC: v.N(4).Str(), Content: v.N(5).Str(), AEs: v.N(6).StrList(), Ranges: v.N(7).StrList()}
+	return aeCase{Recomp: v.N(1).Bool(), CE: v.N(2).Str(), CT: v.N(3).Str(), CC: v.N(4).Str(), Content: v.N(5).Str(), AEs: v.N(6).StrList(), Ranges: v.N(7).StrList(), Vary: len(v.List()) > 8 && v.N(8).Bool()}
 }
 
 var contentRangeRe = regexp.MustCompile(`^bytes (\d+)-(\d+)/(\d+|\*)$`)
@@ -44,6 +45,9 @@ func (c aeCase) Run() (sx.V, error) {
 	hdrs := []KV{{"Content-Type", c.CT}, {"Cache-Control", c.CC}}
 	if c.CE != "" {
 		hdrs = append(hdrs, KV{"Content-Encoding", c.CE})
+	}
+	if c.Vary {
+		hdrs = append(hdrs, KV{"Vary", "Origin"})
 	}
 	hdrs = append(hdrs, KV{"Content-Length", strconv.Itoa(len(c.Content))}) // replaced by the length on the wire for an encoded body
 	ops := []Op{{Kind: "script", Script: []HostScript{{"o.test", []Behaviour{{Status: 200, Hdrs: hdrs, Body: c.Content, Enc: c.CE}}}}}}
@@ -55,6 +59,9 @@ func (c aeCase) Run() (sx.V, error) {
 		}
 		if ranges[i] != "" {
 			q.Hdrs = append(q.Hdrs, KV{"Range", ranges[i]})
+		}
+		if c.Vary {
+			q.Hdrs = append(q.Hdrs, KV{"Origin", "https://app.example"})
 		}
 		ops = append(ops, Op{Kind: "req", Req: q})
 	}
@@ -122,8 +129,13 @@ func genAeCache(tier string, rng *Rng) []Case {
 	out = append(out, aeCase{Recomp: true, CT: "text/plain", CC: "max-age=600", Content: strings.Repeat("0123456789", 10),
 		AEs:    []string{"gzip", "gzip", "-", "-", "br", "br", "gzip"},
 		Ranges: []string{"bytes=10-19", "bytes=10-19", "bytes=10-19", "bytes=-5", "bytes=90-", "", "bytes=0-0"}})
+	// pinned: a gzip origin and a client for which rrrouter takes the coding off (q-values): the range on the fill cannot be
+	// cut out of the compressed length; and a client that takes the gzip body as it is
+	out = append(out, aeCase{Recomp: true, CE: "gzip", CT: "text/plain", CC: "max-age=600", Content: strings.Repeat("0123456789", 400),
+		AEs:    []string{"gzip;q=1.0, identity;q=0.5", "gzip;q=1.0, identity;q=0.5", "gzip", "gzip", "br", "br"},
+		Ranges: []string{"bytes=10-19", "bytes=3000-3009", "bytes=10-19", "bytes=0-4", "bytes=3990-", "bytes=10-15"}})
 	for i := 0; i < n; i++ {
-		c := aeCase{Recomp: rng.Chance(85, 100), CE: rng.Pick([]string{"", "", "gzip", "br"}),
+		c := aeCase{Recomp: rng.Chance(85, 100), Vary: rng.Chance(30, 100), CE: rng.Pick([]string{"", "", "gzip", "br"}),
 			CT: rng.Pick([]string{"text/html", "text/plain; charset=utf-8", "application/json", "image/png"}),
 			CC: rng.Pick([]string{"max-age=600", "max-age=600", "max-age=600, no-transform", "public, max-age=600"})}
 		size := rng.Pick2([]int{1, 17, 1000, 40000})
@@ -141,14 +153,18 @@ func genAeCache(tier string, rng *Rng) []Case {
 		for j := 4 + rng.Intn(5); j > 0; j-- {
 			c.AEs = append(c.AEs, vals[rng.Intn(k)])
 		}
-		if c.CE == "" && size >= 17 && rng.Chance(50, 100) {
+		if (c.CE == "" || c.CE == "gzip") && size >= 17 && rng.Chance(50, 100) {
 			// some of the clients ask for a part of the resource
 			c.Ranges = make([]string, len(c.AEs))
 			for j := range c.Ranges {
 				if rng.Chance(45, 100) {
-					a := rng.Intn(size - 1)
-					b := a + rng.Intn(size-a)
-					c.Ranges[j] = rng.Pick([]string{fmt.Sprintf("bytes=%d-%d", a, b), fmt.Sprintf("bytes=%d-", a), fmt.Sprintf("bytes=-%d", 1+rng.Intn(size-1))})
+					lim := size
+					if c.CE != "" {
+						lim = 16 // inside the encoded body whatever its length (a gzip stream has at least 18 bytes of framing)
+					}
+					a := rng.Intn(lim - 1)
+					b := a + rng.Intn(lim-a)
+					c.Ranges[j] = rng.Pick([]string{fmt.Sprintf("bytes=%d-%d", a, b), fmt.Sprintf("bytes=%d-", a), fmt.Sprintf("bytes=-%d", 1+rng.Intn(lim-1))})
 				}
 			}
 		}
